@@ -25,7 +25,11 @@ def main():
     if a.returncode != 0:
         print(a.stdout)
         return 2
-    env = dict(os.environ, IMB_REPO=WT, IMB_VERIF_BUILD=BD)
+    # private copy of the Coq development: the generated files (coq/Gen) of a scratch tree must not be seen by checks that
+    # run against /repo (or another scratch tree) at the same time
+    os.makedirs(BD, exist_ok=True)
+    sh(["rsync", "-a", "--delete", os.path.join(VERIF, "coq") + "/", os.path.join(BD, "coq") + "/"])
+    env = dict(os.environ, IMB_REPO=WT, IMB_VERIF_BUILD=BD, IMB_COQ_DIR=os.path.join(BD, "coq"))
     rc = 0
     out = {}
     for pth in patches:
